@@ -8,8 +8,11 @@ from . import core, env, tlc
 
 
 def registry():
-    from . import p_binary, p_layout, p_file, p_cuts, p_writer
+    from . import p_binary, p_layout, p_file, p_cuts, p_writer, p_schema
     return {
+        "C11": p_schema.run_c11,
+        "C13": p_schema.run_c13,
+        "C14": p_schema.run_c14,
         "C07": p_writer.run_c07,
         "C06": p_cuts.run_c06,
         "C04": p_file.run_c04,
